@@ -585,22 +585,50 @@ fn medit_err_code(msg: &str) -> u32 {
     }
 }
 
-/// which reader: 0 = medit::parse_binary, 1 = medit::parse_ascii, 2 = Mesh::from_reader
-fn read_mesh(which: u32, bytes: Vec<u8>) -> Rd {
+fn run_reader<R: std::io::BufRead>(which: u32, r: R) -> Result<MeshData, (u32, String)> {
+    match which {
+        0 => mesh_io::medit::parse_binary(r)
+            .map(|m| MeshData::of(&m))
+            .map_err(|e| (medit_err_code(&e.to_string()), e.to_string())),
+        1 => mesh_io::medit::parse_ascii(r)
+            .map(|m| MeshData::of(&m))
+            .map_err(|e| (medit_err_code(&e.to_string()), e.to_string())),
+        _ => Mesh::from_reader(r).map(|m| MeshData::of(&m)).map_err(|e| match e {
+            mesh_io::Error::Io(e) => (2, e.to_string()),
+            mesh_io::Error::Medit(e) => (medit_err_code(&e.to_string()), e.to_string()),
+            other => (6, other.to_string()), // UnknownFormat, or the VTK branch
+        }),
+    }
+}
+
+/// which reader: 0 = medit::parse_binary, 1 = medit::parse_ascii, 2 = Mesh::from_reader.
+/// The bytes are read from a slice (one contiguous buffer, what the model reads) and, when the
+/// result cannot legitimately depend on the chunking (binary parser; ASCII-only text; from_reader
+/// with at least 20 buffered bytes of a file the implementation wrote), again through BufReaders with
+/// small buffers: a different result is reported as error 97, which no model result matches.
+fn read_mesh(which: u32, bytes: Vec<u8>, written: bool) -> Rd {
     let g = guarded(0, T, move || -> Result<MeshData, (u32, String)> {
-        match which {
-            0 => mesh_io::medit::parse_binary(&bytes[..])
-                .map(|m| MeshData::of(&m))
-                .map_err(|e| (medit_err_code(&e.to_string()), e.to_string())),
-            1 => mesh_io::medit::parse_ascii(&bytes[..])
-                .map(|m| MeshData::of(&m))
-                .map_err(|e| (medit_err_code(&e.to_string()), e.to_string())),
-            _ => Mesh::from_reader(&bytes[..]).map(|m| MeshData::of(&m)).map_err(|e| match e {
-                mesh_io::Error::Io(e) => (2, e.to_string()),
-                mesh_io::Error::Medit(e) => (medit_err_code(&e.to_string()), e.to_string()),
-                other => (6, other.to_string()), // UnknownFormat, or the VTK branch
-            }),
+        let base = run_reader(which, &bytes[..]);
+        let ascii_only = bytes.iter().all(|b| *b < 128);
+        let caps: &[usize] = match which {
+            0 => &[1, 3, 8, 13],
+            1 if ascii_only => &[1, 2, 7, 16],
+            // only for files the implementation wrote (a foreign file may start with white space)
+            2 if written => &[20, 21, 64],
+            _ => &[],
+        };
+        for cap in caps {
+            let r = run_reader(which, std::io::BufReader::with_capacity(*cap, &bytes[..]));
+            let same = match (&base, &r) {
+                (Ok(a), Ok(b)) => a == b,
+                (Err(a), Err(b)) => a.0 == b.0,
+                _ => false,
+            };
+            if !same {
+                return Err((97, format!("BufReader with capacity {} gives {:?}, a slice gives {:?}", cap, r, base)));
+            }
         }
+        base
     });
     match g {
         Guarded::Done(Ok(m)) => Rd::Ok(m.coq(), m.json()),
@@ -737,7 +765,7 @@ fn case_medit_bin(r: &mut Rng, big: bool) -> (String, String, String, bool, &'st
         _ => None,
     };
     let rb = match &wbytes {
-        Some(b) => read_mesh(2, b.clone()),
+        Some(b) => read_mesh(2, b.clone(), true),
         None => Rd::Panic("write failed".into()),
     };
     let coq = format!("KMeditBin {} {} {}", md.coq(), coq_opt_bytes(&wbytes), rb.coq());
@@ -802,7 +830,7 @@ fn case_medit_ascii(r: &mut Rng, big: bool) -> (String, String, String, bool, &'
         None => vec![],
     };
     let rb = match &wbytes {
-        Some(b) => read_mesh(2, b.clone()),
+        Some(b) => read_mesh(2, b.clone(), true),
         None => Rd::Panic("write failed".into()),
     };
     let coq = format!(
@@ -978,7 +1006,7 @@ fn case_medit_bin_read(r: &mut Rng) -> (String, String, String, bool, &'static s
         _ => {}
     }
     let which = if r.chance(1, 4) { 2 } else { 0 };
-    let rd = read_mesh(which, buf.clone());
+    let rd = read_mesh(which, buf.clone(), false);
     let coq = format!("KMeditRead {} []%N {} {}", which, coq_bytes(&buf), rd.coq());
     let json = format!(
         "{{\"kind\":\"medit_binary_read\",\"reader\":{},\"version\":{},\"little_endian\":{},\"bytes\":\"{}\",\"read\":{}}}",
@@ -1095,7 +1123,7 @@ fn case_medit_ascii_read(r: &mut Rng) -> (String, String, String, bool, &'static
     }
     let which = if r.chance(1, 3) { 2 } else { 1 };
     let rt = float_words(&buf);
-    let rd = read_mesh(which, buf.clone());
+    let rd = read_mesh(which, buf.clone(), false);
     let coq = format!("KMeditRead {} {} {} {}", which, coq_rtab(&rt), coq_bytes(&buf), rd.coq());
     let json = format!(
         "{{\"kind\":\"medit_ascii_read\",\"reader\":{},\"text\":{},\"bytes\":\"{}\",\"read\":{}}}",
